@@ -341,3 +341,45 @@ def user_shutdown_unconditional(ctx, rep, rule):
                       "a job whose shutdown coroutine was given does not receive the shutdown event in some runs "
                       "(e.g. when it never started, or had failed)")
     rep.need(rule, n, 1, "awaits of a user shutdown coroutine")
+
+
+def cancellation_propagates(ctx, rep, rule):
+    """a nested scheduler that its enclosing scheduler cancels ends *cancelled*: on every path on which a
+    CancelledError was delivered to the nested run or to the broadcast, the coroutine is left by that
+    CancelledError (after tidying), never by a return or by another exception"""
+    r = ctx.roles
+    n = 0
+    explorations = []
+    for cls in r.nestable:
+        f = ctx.prog.supplier(cls, 'co_run')
+        if f is r.RUN:
+            explorations.append((f, ctx.run(gen_cancel=True), "run of %s" % cls.name))
+        else:
+            explorations.append((f, ctx.explore(f, gen_cancel=True, inline_delegate=True), "run of %s" % cls.name))
+    explorations.append((r.BROADCAST, ctx.broadcast(gen_cancel=True), "broadcast"))
+    for f, (an, ip, out), what in explorations:
+        for st, val, node in out.ret:
+            if st.a('cdelivered'):
+                n += 1
+                rep.fail(rule, "%s return after a cancellation (%s)" % (_where_of(ctx, ip, node), what),
+                         _func_of(ctx, node) or f.qualname,
+                         "`%s` is reached on a path on which a CancelledError was delivered and caught"
+                         % src(node)[:80],
+                         "a nested scheduler cancelled by its enclosing scheduler ends as if it had finished: it is "
+                         "reported done (with a result) although it was cancelled, and its successors may start",
+                         trace(st))
+        for st in out.nxt:
+            if st.a('cdelivered'):
+                n += 1
+                rep.fail(rule, "%s falls off its end after a cancellation (%s)" % (f.qualname, what), f.qualname,
+                         "end of function reached on a path on which a CancelledError was delivered and caught",
+                         "the cancellation is swallowed", trace(st))
+        for st, kind, node in out.exc:
+            if st.a('cdelivered'):
+                n += 1
+                rep.check(kind[0] == 'Cancelled', rule,
+                          "%s leaves by the CancelledError it received (%s)" % (_where_of(ctx, ip, node), what),
+                          _func_of(ctx, node) or f.qualname,
+                          "a cancelled activation is left by %s" % (kind,),
+                          "the cancellation is replaced by another exception", trace(st))
+    rep.need(rule, n, 3, "exits reached after a cancellation")
